@@ -306,14 +306,20 @@ def value_specs(tier):
             seen.setdefault(key, v)
         return list(seen.values())[:n]
 
-    big = tier in ("thorough", "deep")
-    l2 = level([["TRUE"], *reps_of(l1, 9 if not big else 16)], 2 if big else 1)
+    big = tier in ("thorough", "deep", "xdeep")
+    xd = tier == "xdeep"
+    if xd:
+        l1 = level([*reps, ["FloatV", 0.0], ["ExtV", "Lin", ["Opaque", "ext.x", "Tl", A, [["TA", QB]]], 7, []], ["UnitV"]], 3)
+    l2 = level([["TRUE"], *reps_of(l1, 9 if not big else 30 if xd else 16)], 2 if big else 1)
     out = leaves + l1 + l2
     if big:
-        l3 = level([["IntV", 1, 3], *reps_of(l2, 14 if tier != "deep" else 24)], 2)
+        l3 = level([["IntV", 1, 3], *reps_of(l2, 14 if tier == "thorough" else 40 if xd else 24)], 2)
         out += l3
-        if tier == "deep":
-            out += level([["FALSE"], *reps_of(l3, 12)], 1)
+        if tier in ("deep", "xdeep"):
+            l4 = level([["FALSE"], *reps_of(l3, 12 if not xd else 30)], 1 if not xd else 2)
+            out += l4
+            if xd:
+                out += level([["TRUE"], *reps_of(l4, 20)], 1)
     seen, res = set(), []
     for v in out:
         kx = repr(v)
@@ -579,15 +585,22 @@ def op_specs(tier):
     """Every op class over all rows of the row alphabet (length <= 2, thorough 3 over a smaller
     element set), all tags/variants, optional attributes set to non-default values."""
     rows = T.rows_over(ELEMS, 2)
-    if tier in ("thorough", "deep"):
+    if tier == "xdeep":
+        rows += [list(c) for c in itertools.product([BOOL, QB, FN], repeat=4)]
+    if tier in ("thorough", "deep", "xdeep"):
         rows += [list(c) for c in itertools.product(ELEMS, repeat=3)]
     small = T.rows_over([BOOL, QB], 2)  # 7 rows
+    if tier == "xdeep":
+        small = small + [[INT5], [FN, QB], [QB, QB, BOOL]]
     tiny = [[], [BOOL], [QB, BOOL]]
     variant_lists = [[]] + [[r] for r in small] + [[a, b] for a in small for b in small]
-    if tier in ("thorough", "deep"):
+    if tier in ("thorough", "deep", "xdeep"):
         variant_lists += [[a, b, c] for a in tiny for b in tiny for c in tiny]
-    if tier == "deep":
+    if tier in ("deep", "xdeep"):
         variant_lists += [[a, b, c] for a in small for b in small[:4] for c in small[:3]]
+    if tier == "xdeep":
+        variant_lists += [[a, b, c] for a in small for b in small for c in small]
+        variant_lists += [[a, b, c, d] for a in tiny for b in tiny for c in tiny for d in tiny]
     deltas = [[], ["ext.x", "prelude"]]
     out = [["Module"]]
     for r in rows:
@@ -648,7 +661,7 @@ def op_specs(tier):
     out += [["DivMod", w] for w in range(0, 7)]
     for a in T.arg_specs():
         out.append(["Custom", "e", "with_arg", G([BOOL], []), "", [a]])
-    for v in value_specs("quick" if tier == "quick" else "thorough")[: 60 if tier == "quick" else (400 if tier == "thorough" else 2000)]:
+    for v in value_specs("quick" if tier == "quick" else "thorough")[: 60 if tier == "quick" else (400 if tier == "thorough" else 2000 if tier == "deep" else 100000)]:
         out.append(["Const", v])
     seen, res = set(), []
     for o in out:
